@@ -117,6 +117,10 @@ def ssporOp : P SsporOp := do
   else if t == "upd" then do
     let v ← pyCount; let hx ← bool; let ne ← nat; let nf ← nat; let o ← listOf nat
     pure (.updateModes v (if hx then some (ne, nf) else none) o)
+  else if t == "bfit" then do
+    let ne ← nat; let nf ← nat
+    pure (.basisFit ne nf)
+  else if t == "copy" then pure .roundTrip
   else failure
 
 def optRat : P (Option Rat) := do
